@@ -159,7 +159,8 @@ impl Keys {
             let lo = x as u32 & 0xFF;
             (hi << 16) | ((hi.wrapping_mul(0x9D) >> 3) & 0xFF) << 8 | lo
         } else {
-            (block * self.per + j) as u32
+            // blocks evenly spaced over the 32-bit key space, `per` consecutive keys in each
+            (block * ((1u64 << 32) / self.blocks) + j) as u32
         }
     }
 }
@@ -358,12 +359,75 @@ impl Space for Het {
     }
 }
 
+/// names of EVERY length 0..=L in a handful of deterministic fill patterns: the name hash (4 types), its fold
+/// invariance, and the extended-table hash at EVERY width 8..=64, against the references.  Covers every tail
+/// length of the 12-byte lookup3 blocks behind any number of full blocks.
+struct LongNames {
+    maxlen: usize,
+}
+const PATTERNS: [&str; 6] = ["a", "Dir\\Sub/File.ext", "zZ/\\", "\u{fc}\u{f1}\u{e9}\u{20ac}", "0123456789abcdefghijklmnopqrstuvwxyz~`{|}[]^_@", "(x)"];
+fn pattern_name(pat: usize, len: usize) -> String {
+    // cycle the pattern's characters until the BYTE length reaches len (a multi-byte character that would
+    // overshoot is replaced by '.' filler)
+    let mut s = String::new();
+    let chars: Vec<char> = PATTERNS[pat].chars().collect();
+    let mut k = 0;
+    while s.len() < len {
+        let c = chars[k % chars.len()];
+        k += 1;
+        if s.len() + c.len_utf8() <= len {
+            s.push(c);
+        } else {
+            s.push('.');
+        }
+    }
+    s
+}
+impl Space for LongNames {
+    fn len(&self) -> u64 {
+        ((self.maxlen + 1) * PATTERNS.len()) as u64
+    }
+    fn describe(&self, i: u64) -> Value {
+        json!({"name_length": i as usize / PATTERNS.len(), "pattern": PATTERNS[i as usize % PATTERNS.len()], "het_bits": "8..=64"})
+    }
+    fn run(&self, i: u64) -> CaseResult {
+        let (len, pat) = (i as usize / PATTERNS.len(), i as usize % PATTERNS.len());
+        let mut r = CaseResult::new();
+        r.nontrivial = len > 0;
+        r.key = format!("ln{i}");
+        let s = pattern_name(pat, len);
+        check_name(&s, &mut r);
+        let fu: Vec<u8> = s.bytes().map(mpqcrypt::fold_upper).collect();
+        let fl: Vec<u8> = s.bytes().map(mpqcrypt::fold_lower).collect();
+        let (mut up_only, mut lo_only, mut n) = (0u64, 0u64, 0u64);
+        for bits in 8u32..=64 {
+            let got = crypto::het_hash(&s, bits);
+            let (wu, wl) = (het_ref(&fu, bits), het_ref(&fl, bits));
+            n += 1;
+            if got == wu && got == wl {
+            } else if got == wu {
+                up_only += 1;
+            } else if got == wl {
+                lo_only += 1;
+            } else {
+                r.viol("het_hash differs from reference lookup3 of the folded name", format!("name={:?} bits={bits} got={:x?} want(upper)={:x?} want(lower)={:x?}", s, got, wu, wl));
+                break;
+            }
+        }
+        r.count("het_evaluations", n);
+        r.count("het_matches_upper_fold_only", up_only);
+        r.count("het_matches_lower_fold_only", lo_only);
+        r
+    }
+}
+
 fn build(name: &str, _arg: &str, tier: Tier) -> Box<dyn Space> {
     match name {
         "hash2" => Box::new(Hash2),
         "table" => Box::new(Table),
         "keys" => match tier {
-            Tier::Quick => Box::new(Keys { blocks: 256, per: 1 << 16, stride_mode: true }),
+            // quick: 2^30 keys (1024 evenly spaced runs of 2^20 consecutive keys); thorough: every one of the 2^32 keys
+            Tier::Quick => Box::new(Keys { blocks: 1024, per: 1 << 20, stride_mode: false }),
             Tier::Thorough => Box::new(Keys { blocks: 4096, per: 1 << 20, stride_mode: false }),
         },
         "bytes" => {
@@ -375,18 +439,19 @@ fn build(name: &str, _arg: &str, tier: Tier) -> Box<dyn Space> {
             lens.extend([31, 32, 33, 511, 512, 513, 4095, 4096, 4097]);
             Box::new(Bytes { keys, lens })
         }
-        "het" => Box::new(Het::new(tier.pick(11, 13))),
+        "het" => Box::new(Het::new(tier.pick(12, 15))),
+        "longnames" => Box::new(LongNames { maxlen: tier.pick(600, 5000) }),
         _ => panic!("space {name}"),
     }
 }
 
 fn main() {
     let Mode::Supervisor(mut c) = start("C04", "exploration", build) else { return };
-    c.rule = "every string of <=2 chars over U+0000..U+07FF x 4 hash types vs refimpl (case = one first char); all 1280 table entries; keys x fixed 3-dword buffer; key pool x byte lengths 0..17 (+sector-ish) x 3 contents through encrypt_data/decrypt_file_data; all names of length 0..L over {a,/,Q} x 5 HET widths vs independent lookup3. A case is non-trivial when it hashes/encrypts at least one non-empty input; distinct by case index.".into();
+    c.rule = "every string of <=2 chars over U+0000..U+07FF x 4 hash types vs refimpl (case = one first char); all 1280 table entries; keys x fixed 3-dword buffer; key pool x byte lengths 0..17 (+sector-ish) x 3 contents through encrypt_data/decrypt_file_data; all names of length 0..L over {a,/,Q} (L = 12 quick / 15 thorough) x 5 HET widths vs independent lookup3; space longnames: names of EVERY byte length 0..600 (thorough ..5000) in 6 fill patterns (letters, path with both separators, mixed case, non-ASCII, punctuation) x 4 hash types + fold invariance + EVERY HET width 8..=64. A case is non-trivial when it hashes/encrypts at least one non-empty input; distinct by case index.".into();
     c.assume("hash_string takes &str: bytes 0xC0,0xC1,0xF5..0xFF can never reach it from safe code; the fold table entries for them are unobservable and not judged");
     c.assume("HET fold: either upper- or lower-case folding is accepted provided it is the same for every name (the property fixes only that the name is folded)");
     c.assume("reference: /verif/harness/refimpl (crypt table from the seed recurrence, name hash, block cipher, lookup3) shares no code with /repo");
-    for s in ["table", "hash2", "keys", "bytes", "het"] {
+    for s in ["table", "hash2", "keys", "bytes", "het", "longnames"] {
         c.run_space(s, "");
     }
     let up = c.agg.counters.get("het_matches_upper_fold_only").copied().unwrap_or(0);
@@ -394,6 +459,6 @@ fn main() {
     if up > 0 && lo > 0 {
         c.agg.viols.push(FoundViol { space: "het".into(), arg: "".into(), index: 0, desc: json!("global"), symptom: "het_hash folds case inconsistently (some names upper, some lower)".into(), detail: format!("upper-only {up}, lower-only {lo}") });
     }
-    c.extra_cov.insert("key_domain".into(), json!(if c.tier == Tier::Thorough { "all 2^32 keys" } else { "2^24 keys: every high-16 x low-8 combination" }));
+    c.extra_cov.insert("key_domain".into(), json!(if c.tier == Tier::Thorough { "all 2^32 keys" } else { "2^30 keys: 1024 evenly spaced runs of 2^20 consecutive keys" }));
     c.finish();
 }
